@@ -1,6 +1,7 @@
 """C02 — rate limiter admits at most limit_for_period calls per window."""
 from ..core import graph, Call, peel, leaves, show, N
 from ..util import *
+from ..util import state_adts
 from .rl_common import RL, CRATE
 
 EXPLANATION = (
@@ -332,8 +333,9 @@ def _check_window(facts, tr, rep, rl, W):
     # refill writes: other writes to the consumed fields (anywhere in the crate)
     cfields = sorted({c[2] for c in cons})
     nref = 0
+    adts = state_adts(facts, CRATE, adt)
     for fname in cfields:
-        for (b, i, j, s) in field_writes(facts, adt, fname):
+        for (b, i, j, s) in [w_ for a_ in sorted(adts) for w_ in field_writes(facts, a_, fname)]:
             if b is W and i in cons_blocks:
                 continue
             if b.name == "new":
@@ -353,11 +355,13 @@ def _check_window(facts, tr, rep, rl, W):
     # window start: written with the instant the guard compared
     nstart = 0
     has_start = False
-    for f in facts.adt(adt)["variants"][0]["fields"]:
+    starts = []
+    for (adt, f) in [(a_, f_) for a_ in sorted(adts) for f_ in facts.adt(a_)["variants"][0]["fields"]]:
         fty = facts.crates[CRATE].types[f["ty"]]["s"]
         if "Instant" not in fty or "Deque" in fty:
             continue
         has_start = True
+        starts.append((adt, f["name"]))
         for (b, c) in _mut_borrow_calls(facts, tr, adt, f["name"]):
             rep.saw(b)
             nstart += 1
@@ -379,6 +383,83 @@ def _check_window(facts, tr, rep, rl, W):
                    "refill the window again" % (short, f["name"], show(val)))
     if has_start:
         rep.floor("C02.window-start-writes:" + short, nstart, 1)
+        _check_refresh_start(facts, tr, rep, W, short, adts, cfields, starts)
+
+
+ELAPSED_FNS = ("std::time::Instant::duration_since", "std::time::Instant::elapsed",
+               "std::time::Instant::saturating_duration_since", "std::time::Instant::checked_duration_since")
+
+
+def _check_refresh_start(facts, tr, rep, W, short, adts, cfields, starts):
+    """the refresh is one step: on the side of the elapsed-time guard where the period is over and capacity is restored,
+    every way out of the window function advances the window start.  A way out that restores capacity and leaves the
+    start behind keeps the guard true, so every later call restores capacity again: the limit is off until some other
+    path moves the start.  Judged on the inlined view of the window function (the rotation may live in a helper)."""
+    Wf = facts.inl.bodies.get(W.def_) or W
+    ftr = tr.inl if Wf is not W else tr
+    g = graph(Wf)
+    sblocks, rsites = set(), []
+    snames = {n for (_a, n) in starts}
+
+    def fld(pl):
+        pp = pl["p"]
+        if pp and isinstance(pp[-1], dict) and pp[-1].get("n") and pp[-1].get("adt") in adts:
+            return pp[-1]["n"]
+        return None
+    cons_f = {c[0] for a_ in adts for c in _consume_sites(facts, ftr, Wf, a_)}
+    for i, blk in enumerate(Wf.blocks):
+        for j, s_ in enumerate(blk["stmts"]):
+            if s_["k"] != "assign":
+                continue
+            f = fld(s_["lhs"])
+            if f in snames:
+                sblocks.add(i)
+            elif f in cfields and i not in cons_f:
+                rsites.append((i, j, f))
+    # `&mut self.f` handed to a call (mem::take / replace, `+=` on a non-primitive), through any chain of reborrows
+    for c in g.calls():
+        if c.name not in ("take", "replace", "swap", "clear", "add_assign", "sub_assign"):
+            continue
+        for a in c.args:
+            n_ = ftr.expand(ftr.operand(Wf, a, c.loc))
+            while n_[0] in ("use", "deref") or (n_[0] == "ref" and n_[1][0] in ("deref", "use", "ref")):
+                n_ = n_[1] if n_[0] != "ref" else ("ref", n_[1][1])
+            if n_[0] == "ref" and peel(n_[1])[0] == "field" and peel(n_[1])[3] in adts:
+                f2 = peel(n_[1])[2]
+                if f2 in snames:
+                    sblocks.add(c.bb)
+                elif f2 in cfields and c.name in ("take", "replace", "swap", "clear"):
+                    rsites.append((c.bb, None, f2))
+    done = set()
+    for (i, j, f) in rsites:
+        # the innermost dominating edge on which `elapsed >= period` holds
+        best = None
+        for e in dominating_edges(ftr, Wf, i):
+            if e["kind"] != "bool":
+                continue
+            c = cmp_on_edge(ftr, e)
+            if c is None:
+                continue
+            op, x, y = c
+            xs, ys = peel(x), peel(y)
+            el_x = xs[0] == "call" and ftr.call_of(xs).def_ in ELAPSED_FNS
+            el_y = ys[0] == "call" and ftr.call_of(ys).def_ in ELAPSED_FNS
+            if (el_x and op in ("Ge", "Gt")) or (el_y and op in ("Le", "Lt")):
+                if best is None or g.dominates(best["bb"], e["bb"]):
+                    best = e
+        if best is None:
+            continue
+        tgt = best["sw"].variants.get(best["label"])
+        if (best["bb"], tgt) in done:
+            continue
+        done.add((best["bb"], tgt))
+        rets = [b for b in range(g.n) if g.term(b)["k"] == "return"]
+        r = g.reach([tgt], kinds=(N,), avoid_nodes=sblocks) if tgt not in sblocks else set()
+        leak = sorted(b for b in rets if b in r)
+        rep.ob("C02.REFILL", skey(W, "refresh-start@%d" % len(done)), not leak, g.where(best["bb"]),
+               "once the period is over (guard at %s) every way out of %s advances the window start (%s)" % (g.where(best["bb"]), short, ", ".join(sorted(snames))) if not leak else
+               "past the elapsed-time guard at %s capacity is restored (%s at %s) but %s can be left without advancing the window start (%s): the guard "
+               "stays true and every later call restores capacity again" % (g.where(best["bb"]), f, g.where(i, j), short, ", ".join(sorted(snames))))
 
 
 def _mut_borrow_calls(facts, tr, adt, fname):
